@@ -14,11 +14,12 @@ Do(op) == CASE op.n = "new"    -> T0
             [] op.n = "put"    -> Put(t, op.a[1], op.a[2])
             [] op.n = "remove" -> Remove(t, op.a[1])
             [] OTHER           -> t
+Seen(e) == "np" \notin DOMAIN e.op      \* the real tree was observed after this call
 Init == node = 1 /\ t = T0
 Next == \E k \in 1..Len(T[node].kids) :
           LET i == T[node].kids[k]  e == T[i]  t1 == Do(e.op) IN
           /\ node' = i /\ t' = t1
-          /\ (~e.res.p /\ ~e.proj.pp) => PrintT(<<"LAYCMP", i>>)
-          /\ (~e.res.p /\ ~e.proj.pp /\ (t1.h # e.proj.h \/ t1.n # e.proj.size)) => PrintT(<<"LAYDIFF", i>>)
+          /\ (Seen(e) /\ ~e.res.p /\ ~e.proj.pp) => PrintT(<<"LAYCMP", i>>)
+          /\ (Seen(e) /\ ~e.res.p /\ ~e.proj.pp /\ (t1.h # e.proj.h \/ t1.n # e.proj.size)) => PrintT(<<"LAYDIFF", i>>)
 Spec == Init /\ [][Next]_vars
 =============================================================================
